@@ -11,7 +11,7 @@ import ast
 from fractions import Fraction
 
 from .. import symx, terms as T, absint
-from ..frontend import AnalysisError, norm_text
+from ..frontend import AnalysisError, norm_text, body_without_docstring
 from ..poly import Algebra
 from ..rules import ret_term, outcomes, conjuncts, disjuncts, find_calls, D2R, timearg_scan, int_set, iset_union, iset_compl, stateless_scan, with_new_helpers
 from .. import units, guards, effects
@@ -68,6 +68,7 @@ def run(repo, rep, tier):
                    "D3 latitude refusal; civil year/month in the leap-second term", "D4 no-times result iff |cos H0| > 1"]
     rep.undecided = ["spacing of the seasons; the 1e-5 deg accuracy is decided as far as the loop's exit guarantee goes (given convergence)", "equation-of-time magnitude / rate", "rise/set altitude agreement"]
     seasons(repo, rep)
+    season_start(repo, rep)
     season_exit(repo, rep)
     eot(repo, rep)
     rise_set(repo, rep)
@@ -144,6 +145,88 @@ def seasons(repo, rep):
         rep.violation("R-ENUM", e.site, e.key, e.msg)
     if not evs:
         rep.ok("R-ENUM", site, "if/elif dispatch covers the four validated season names")
+
+
+def season_start(repo, rep):
+    """R-START.  The refinement loop moves the epoch by at most 58 days per step towards the requested longitude, so it ends at the
+    season nearest to where it starts: the starting estimate decides *which* season instant is returned.  The estimate is a
+    polynomial in the year (Tables 27.A / 27.B, each in its own time argument).  The statements before the loop are evaluated
+    symbolically per season and the starting JDE is executed exactly for every year -1000..3000: it must fall inside the requested
+    civil year, the four estimates of a year must be in order and 86-96 days apart, and the same season of consecutive years 365.0-365.5
+    days apart (the property's spacing of the final instants, widened by the difference between estimate and final instant)."""
+    from ..rules import eval_exact, NotEvaluable
+    from .c19 import _civil_jdn
+    rep.rule("R-START", "the starting estimate of the season iteration lies in the requested year, in season order, with regular spacing: executed exactly for every year "
+                        "-1000..3000 x 4 seasons (it decides which season instant the iteration converges to)")
+    q = "Sun.get_equinox_solstice"
+    site = "Sun." + q
+    fn = repo.func("Sun", q)
+    nm = [a.arg for a in fn.args.args]
+    body = body_without_docstring(fn)
+    idx = [i for i, st in enumerate(body) if isinstance(st, ast.While)]
+    if len(idx) != 1:
+        rep.inconcl("R-START", site, "expected one top-level refinement loop, found %d" % len(idx))
+        return
+    YR = T.sym("NUM_YEAR")
+    est = {}
+    for tg in SEASONS:
+        ctx = symx.Ctx(repo, "Sun", "Sun", 3)
+        ctx.refine_guards = True
+        ctx.root_tgt, ctx.rec_depth = "Sun." + q, 0
+        env = symx.bind_params(fn, {nm[0]: YR, nm[1]: ("str", tg)})
+        try:
+            outs = symx.exec_block(ctx, body[:idx[0]], env, T.land())
+        except AnalysisError as e:
+            rep.inconcl("R-START", site, "statements before the loop not evaluable: %s" % e)
+            return
+        falls = [o for o in outs if o.kind == "fall"]
+        # the loop variable: the name the loop body advances with `+=`
+        adv = [n.target.id for n in ast.walk(body[idx[0]]) if isinstance(n, ast.AugAssign) and isinstance(n.target, ast.Name) and isinstance(n.op, ast.Add)]
+        if len(falls) != 1 or len(set(adv)) != 1 or adv[0] not in falls[0].env:
+            rep.inconcl("R-START", site, "starting epoch of the loop not identified")
+            return
+        v = falls[0].env[adv[0]]
+        est[tg] = (v[1] if v[0] == "epoch" else v, falls[0].cond)
+    bad = {}
+    n = 0
+    prev_year = None
+    for y in range(-1000, 3001):
+        vals = []
+        for tg in SEASONS:
+            t, cond = est[tg]
+            try:
+                if eval_exact(cond, {YR: Fraction(y), "$memo": {}}) is not True:
+                    raise NotEvaluable("year %d does not reach the loop" % y)
+                j = eval_exact(t, {YR: Fraction(y), "$memo": {}})
+            except NotEvaluable as e:
+                rep.inconcl("R-START", site, "starting estimate not executable: %s" % e)
+                return
+            except (TypeError, ValueError, IndexError, KeyError) as e:
+                rep.inconcl("R-START", site, "starting estimate not executable: %s: %s" % (type(e).__name__, e))
+                return
+            n += 1
+            vals.append(j)
+            lo, hi = _civil_jdn(y, 1, 1) - Fraction(1, 2), _civil_jdn(y + 1, 1, 1) - Fraction(1, 2)
+            if not lo <= j < hi:
+                bad.setdefault("year", []).append("%s %d: the iteration starts at JDE %.3f, which is %s the year %d (JDE %.1f .. %.1f)"
+                                                  % (tg, y, float(j), "before" if j < lo else "after", y, float(lo), float(hi)))
+        for k in range(3):
+            gap = vals[k + 1] - vals[k]
+            if not 86 <= gap <= 96:
+                bad.setdefault("order", []).append("%d: %s and %s estimates are %.2f days apart" % (y, SEASONS[k], SEASONS[k + 1], float(gap)))
+        if prev_year is not None:
+            for k in range(4):
+                gap = vals[k] - prev_year[k]
+                if not Fraction(365) <= gap <= Fraction(731, 2):
+                    bad.setdefault("yearly", []).append("%s estimates of %d and %d are %.3f days apart" % (SEASONS[k], y - 1, y, float(gap)))
+        prev_year = vals
+    for kind, lst in sorted(bad.items()):
+        rep.violation("R-START", site, "start:" + kind, lst[0] + "  (%d of %d executed estimates fail this way): the loop converges to the season nearest to its start, "
+                      "so the returned instant belongs to another year / breaks the order and spacing of the seasons" % (len(lst), n), obligation=True)
+    if not bad:
+        rep.ok("R-START", site, "%d starting estimates executed exactly (every year -1000..3000 x 4 seasons): inside the requested year, in order 86-96 days apart, "
+                                "same season of consecutive years 365.0-365.5 days apart" % n, obligation=True)
+    rep.floor("season starting estimates executed", n, 16000)
 
 
 def season_exit(repo, rep):
